@@ -176,6 +176,9 @@ func (c *checker) buildReplayBinaryOpt(pkg string, sched, race bool) (string, er
 	cmd := exec.Command("go", "test", "-c", "-vet=off", "-overlay", ovFile, "-o", bin, "./"+pkg)
 	if race {
 		bin = filepath.Join(c.work, "replay_race_"+pkg+".test")
+		if sched {
+			bin = filepath.Join(c.work, "replay_race_sched_"+pkg+".test")
+		}
 		cmd = exec.Command("go", "test", "-c", "-race", "-vet=off", "-overlay", ovFile, "-o", bin, "./"+pkg)
 	}
 	cmd.Dir = c.repo
@@ -205,28 +208,34 @@ func (c *checker) runReplay(bin, pkg, file string) (*nativeOutcome, error) {
 
 // runRaceReplay runs a counterexample with real goroutines (no twin scheduler) under the Go race
 // detector, in three start orders, and reports whether a DATA RACE report names both blamed functions.
-func (c *checker) runRaceReplay(bin, pkg, file, site string) (bool, string) {
+func (c *checker) runRaceReplay(bin, binSched, pkg, file, site string) (bool, string) {
 	fns := strings.Split(site, " | ")
 	last := ""
 	for round := 0; round < 2; round++ {
-		for order := 0; order < 3; order++ {
+		// order -1: the engine's schedule, forced by the twin scheduler (whose hand-over is hidden from the
+		// race detector); orders 0..2: free-running goroutines with staggered starts
+		for order := -1; order < 3; order++ {
 			os.Remove(file + ".out")
-			cmd := exec.Command(bin, "-test.run", "^TestVerifReplay$", "-test.count=1", "-test.timeout=120s")
+			b := bin
+			env := append(os.Environ(), "VERIF_REPLAY_FILE="+file, "GORACE=halt_on_error=0")
+			if order < 0 {
+				if binSched == "" || round > 0 {
+					continue
+				}
+				b = binSched
+			} else {
+				env = append(env, "VERIF_RACE=1", fmt.Sprintf("VERIF_RACE_ORDER=%d", order))
+			}
+			cmd := exec.Command(b, "-test.run", "^TestVerifReplay$", "-test.count=1", "-test.timeout=120s")
 			cmd.Dir = filepath.Join(c.repo, pkg)
-			cmd.Env = append(os.Environ(), "VERIF_REPLAY_FILE="+file, "VERIF_RACE=1", fmt.Sprintf("VERIF_RACE_ORDER=%d", order), "GORACE=halt_on_error=0")
+			cmd.Env = env
 			out, _ := cmd.CombinedOutput()
 			last = string(out)
 			for _, blk := range strings.Split(last, "WARNING: DATA RACE")[1:] {
 				if i := strings.Index(blk, "=================="); i >= 0 {
 					blk = blk[:i]
 				}
-				all := true
-				for _, f := range fns {
-					if !panicSiteMatches(f, blk) {
-						all = false
-					}
-				}
-				if all {
+				if raceBlockMatches(fns, blk) {
 					return true, blk
 				}
 			}
@@ -236,6 +245,55 @@ func (c *checker) runRaceReplay(bin, pkg, file, site string) (bool, string) {
 		last = last[len(last)-1500:]
 	}
 	return false, last
+}
+
+// raceBlockMatches: the two accesses of a DATA RACE report (the innermost frame of each of its first two
+// stacks, runtime-internal frames such as map access helpers skipped) must be made by the two blamed
+// functions themselves. Reports about the replay runtime's own bookkeeping (package verifrt) never count.
+func raceBlockMatches(fns []string, blk string) bool {
+	var accessors []string
+	lines := strings.Split(blk, "\n")
+	for i := 0; i < len(lines) && len(accessors) < 2; i++ {
+		l := lines[i]
+		if !(strings.HasPrefix(l, "Read at") || strings.HasPrefix(l, "Write at") || strings.HasPrefix(l, "Previous read at") || strings.HasPrefix(l, "Previous write at") ||
+			strings.HasPrefix(l, "Atomic") || strings.HasPrefix(l, "Previous atomic")) {
+			continue
+		}
+		for j := i + 1; j < len(lines); j++ {
+			f := strings.TrimSpace(lines[j])
+			if f == "" {
+				break
+			}
+			if strings.HasPrefix(lines[j], "      ") || strings.HasPrefix(f, "runtime.") || strings.HasPrefix(f, "internal/") || strings.HasPrefix(f, "sync.") || strings.HasPrefix(f, "sync/atomic.") {
+				continue // file:line of the previous frame, or a run-time helper
+			}
+			accessors = append(accessors, f)
+			break
+		}
+	}
+	if len(accessors) < 2 {
+		return false
+	}
+	for _, a := range accessors {
+		if strings.Contains(a, "/verifrt.") {
+			return false
+		}
+	}
+	m := func(f, a string) bool {
+		// (an access made in a function literal is blamed on "<function>$n" by the engine and printed as
+		// "<function>.funcN" natively: compare the enclosing function)
+		if i := strings.Index(f, "$"); i > 0 {
+			f = f[:i]
+		}
+		if i := strings.Index(a, ".func"); i > 0 {
+			a = a[:i] + "()"
+		}
+		return panicSiteMatches(f, a)
+	}
+	if len(fns) == 1 {
+		return m(fns[0], accessors[0]) && m(fns[0], accessors[1])
+	}
+	return (m(fns[0], accessors[0]) && m(fns[1], accessors[1])) || (m(fns[0], accessors[1]) && m(fns[1], accessors[0]))
 }
 
 var siteRe = regexp.MustCompile(`^\(\*?([^()]+)\.([A-Za-z0-9_]+)\)\.([A-Za-z0-9_]+)`)
@@ -436,12 +494,10 @@ func cmdCheck(args []string) int {
 		}(j)
 	}
 	wg.Wait()
-	if len(workerErrs) > 0 {
-		for _, e := range workerErrs {
-			fmt.Fprintln(os.Stderr, "WORKER ERROR:", e)
-		}
-		fmt.Printf("INCONCLUSIVE property=%s reason=worker-failed\n", prop)
-		return 2
+	// a worker that died (killed, crashed) makes the run inconclusive, but what the other workers found
+	// is still merged, replayed and reported
+	for _, e := range workerErrs {
+		fmt.Fprintln(os.Stderr, "WORKER ERROR:", e)
 	}
 
 	// ---- merge
@@ -454,6 +510,9 @@ func cmdCheck(args []string) int {
 	for _, j := range jobsList {
 		var r interp.RunResult
 		if err := loadJSON(j.out, &r); err != nil {
+			if len(workerErrs) > 0 {
+				continue // reported as worker failure below
+			}
 			fmt.Fprintln(os.Stderr, "result:", err)
 			fmt.Printf("INCONCLUSIVE property=%s reason=missing-result\n", prop)
 			return 2
@@ -572,7 +631,20 @@ func cmdCheck(args []string) int {
 				}
 				bins[vr.pkg+"+race"] = rb
 			}
-			if ok, report := c.runRaceReplay(rb, vr.pkg, vr.file, vr.v.PanicSite); ok {
+			rbs := ""
+			if vr.sched {
+				var ok bool
+				if rbs, ok = bins[vr.pkg+"+race+sched"]; !ok {
+					var err error
+					if rbs, err = c.buildReplayBinaryOpt(vr.pkg, true, true); err != nil {
+						fmt.Fprintln(os.Stderr, err)
+						fmt.Printf("INCONCLUSIVE property=%s reason=native-build-failed\n", prop)
+						return 2
+					}
+					bins[vr.pkg+"+race+sched"] = rbs
+				}
+			}
+			if ok, report := c.runRaceReplay(rb, rbs, vr.pkg, vr.file, vr.v.PanicSite); ok {
 				vr.status = "confirmed"
 				os.WriteFile(vr.file+".race.txt", []byte("WARNING: DATA RACE"+report), 0o644)
 			} else {
@@ -678,6 +750,9 @@ func cmdCheck(args []string) int {
 
 	// ---- inconclusive / vacuity
 	incon := map[string]int{}
+	if len(workerErrs) > 0 {
+		incon["worker-failed (its part of the input space was not explored)"] = len(workerErrs)
+	}
 	reachAll := map[string]int{}
 	tot := struct {
 		paths, pruned, decisions, forks, aSolver, aProved, aConcrete, q, sat, unsat, unknown, errs int
